@@ -1,3 +1,4 @@
 pub mod engine;
+pub mod fuzzglue;
 pub mod oracles;
 pub mod props;
